@@ -92,8 +92,10 @@ MODES = [None, dict(typed=True, exc="TypeError"), dict(exc="KeyError"), dict(typ
          dict(exc="AttributeError")]
 # ... and every other exception class below Exception (IndexError, LookupError, RecursionError, OSError, user-defined
 # classes ...), alternately from a plain and from a typed predicate
+# ... and raised WITHOUT arguments (`raise KeyError`, a bare `assert`): e.args is empty
+MODES += [dict(exc=n, noargs=True) for n in ("AssertionError", "NotImplementedError", "ValueError", "KeyError", "UserError", "StopIteration")]
 MODES += [dict(exc=n, typed=True) if i % 3 == 2 else dict(exc=n)
-          for i, n in enumerate(sorted(PL.EXC)) if n not in {m["exc"] for m in MODES if m and "exc" in m}]
+          for i, n in enumerate(sorted(PL.EXC)) if n not in {m["exc"] for m in MODES if m and "exc" in m and not m.get("noargs")}]
 
 
 CAST_EXC = ["OverflowError", "RuntimeError", "ZeroDivisionError", "UserError", "ArithmeticError", "RecursionError"]
@@ -183,7 +185,9 @@ def work(case):
                                    what="%s escaped BoboDecider.update()" % type(ex).__name__, detail=str(ex))
         out += o
         if lists is None:
-            break
+            # update() let an exception out (the engine's loop would end) - whatever the predicate raised
+            return out, True, dict(signature="exception-escaped-decider", step=k,
+                                   what="an exception escaped BoboDecider.update() on event %d" % k, detail=None)
         comp, halt, upd = lists
         # which existing runs hit a raise at this event (oracle side: evaluate the rules, catching the scripted raise)
         raised, raised_pats = set(), set()
